@@ -144,9 +144,10 @@ static COUNTER: AtomicU64 = AtomicU64::new(0);
 static SHUTTING_DOWN: std::sync::atomic::AtomicBool = std::sync::atomic::AtomicBool::new(false);
 
 fn tmp_base() -> PathBuf {
+    // $VERIF_TMP if set, else a tmpfs when one is writable (a run writes and removes many small files), else /tmp
     match std::env::var("VERIF_TMP") {
         Ok(s) if !s.is_empty() => PathBuf::from(s),
-        _ => std::env::temp_dir(),
+        _ => PathBuf::from(crate::props::c05::scratch_base()),
     }
 }
 
@@ -1785,7 +1786,7 @@ impl Property for C19 {
         "C19"
     }
     fn rule(&self) -> String {
-        "case = a valid document set written from the final store of a generated history (STAM JSON: one document through from_str / from_file, resources and datasets in @include stand-off files, an included sub-store; STAM CSV store; CBOR; plus annotate_from_file, AnnotationBuilder::from_json_str + annotate, AnnotationDataSet::from_file, TextResource::from_file) with 1-3 mutations applied: structured JSON edits on an order-preserving tree (delete / duplicate / reorder / retype a member; numbers 0, -1, 2^31, 2^63, isize::MIN, 2^64, 10^30; strings replaced by ids of other items (dangling, forward and cyclic references, duplicate ids), by temporary ids !A<n> !D<n> !K<n> with n from 0 to 10^30 or relative to the list length, by file names (missing, own file, other file); added members; self- and mutually-including files), CSV cell / row / column edits (unknown and mismatched selector kinds, ';' lists of unequal length, empty cells, huge offsets), CBOR edits on a generic decoded tree (handles and lengths changed, elements deleted / duplicated / swapped / retyped, lying length prefixes) and byte edits (truncate, flip, splice, insert); or a string for Cursor / Type / SelectorKind / DataFormat::try_from, Offset JSON, AnnotationBuilder::from_json_str; or a raw fuzz input. Every case runs in a child process with a counting allocator. Oracle: no panic; the child survives (no stack overflow, no failed allocation); peak live bytes during the load <= 64 MiB + 4096 x input bytes; allocation calls <= 10^6 + 10^3 x input bytes; if the loader returns Ok: full observation, the model-free C01-C03 consistency battery, to_json_string and five queries complete without panic and find the store consistent. Non-trivial = the mutated documents differ in meaning from their parents and every changed file still parses syntactically in its format (so the loader gets past syntax); for strings: not one of the valid spellings. Distinct = distinct case JSON.".into()
+        "case = a valid document set written from the final store of a generated history (STAM JSON: one document through from_str / from_file, resources and datasets in @include stand-off files, an included sub-store; STAM CSV store; CBOR; plus annotate_from_file, AnnotationBuilder::from_json_str + annotate, AnnotationDataSet::from_file, TextResource::from_file) with 1-3 mutations applied: structured JSON edits on an order-preserving tree (delete / duplicate / reorder / retype a member; numbers 0, -1, 2^31, 2^63, isize::MIN, 2^64, 10^30; strings replaced by ids of other items (dangling, forward and cyclic references, duplicate ids), by temporary ids !A<n> !D<n> !K<n> with n from 0 to 10^30 or relative to the list length, by file names (missing, own file, other file); added members; self- and mutually-including files), CSV cell / row / column edits (unknown and mismatched selector kinds, ';' lists of unequal length, empty cells, huge offsets), CBOR edits on a generic decoded tree (handles and lengths changed, elements deleted / duplicated / swapped / retyped, lying length prefixes) and byte edits (truncate, flip, splice, insert); or a string for Cursor / Type / SelectorKind / DataFormat::try_from, Offset JSON, AnnotationBuilder::from_json_str; or a raw fuzz input. Every case runs in a child process with a counting allocator. Oracle: no panic; the child survives (no stack overflow, no failed allocation); peak live bytes during the load <= 64 MiB + 4096 x input bytes; allocation calls <= 10^6 + 10^3 x input bytes; if the loader returns Ok: the forward references of the store are sound (every handle names a live item, annotation selectors point backwards), then full observation, the model-free C01-C03 consistency battery, to_json_string and five queries complete without panic and find the store consistent. Whatever goes wrong when a store returned by the CBOR reader is used (it validates nothing) is grouped under the signature prefix cbor-unvalidated|. Non-trivial = the mutated documents differ in meaning from their parents and every changed file still parses syntactically in its format (so the loader gets past syntax); for strings: not one of the valid spellings. Distinct = distinct case JSON.".into()
     }
     fn assumptions(&self) -> Vec<String> {
         vec![
@@ -1794,6 +1795,8 @@ impl Property for C19 {
             "to_json_string of a loaded store is skipped when a stand-off file name in the document points outside the scratch directory (it could write there)".into(),
             "an Err result is accepted whatever its text; after Err nothing more is asked of the store".into(),
             "every load runs on its own thread with a 2 MiB stack (the default of a Rust thread); use of the loaded store on a 16 MiB thread".into(),
+            "the CBOR documents that are mutated are the library's output re-encoded deterministically (map entries sorted, scratch path replaced): id maps are hash maps and come in a different order every time".into(),
+            "using a store returned by the CBOR reader is given 8 s of wall-clock time (a ranged selector whose end was edited loops for 2^32 steps); running out of it is reported under cbor-unvalidated|hang, which the known finding covers".into(),
         ]
     }
     fn cases(&self, tier: Tier) -> u64 {
